@@ -205,7 +205,7 @@ package variants
 // type and payload of another variant
 //@ func (c *Variant) SetAsObject
 //@   requires c != nil
-//@   requires typeof(value) == tyVar() ==> vinv(value.(*Variant)) && value.(*Variant) != c
+//@   requires typeof(value) == tyVar() && value.(*Variant) != nil ==> vinv(value.(*Variant)) && value.(*Variant) != c
 //@   ensures[C20] vinv(c)
 //@   ensures[C20] typeof(value) != tyVar() ==> c.typ == typeForHost(value)
 //@   ensures[C20] typeof(value) == typeid("int32") ==> c.value.(int) == value.(int32)
@@ -215,44 +215,60 @@ package variants
 //@       typeof(value) != tyArr() && typeof(value) != tyVar() ==> c.value == value
 //@   ensures[C20] typeof(value) == tyArr() ==> len(arrOf(c)) == len(value.([]*Variant)) && fresh(arrOf(c)) &&
 //@       (forall i int :: 0 <= i && i < len(arrOf(c)) ==> arrOf(c)[i] == old(value.([]*Variant)[i]))
-//@   ensures[C20] typeof(value) == tyVar() ==> c.typ == old(value.(*Variant).typ) &&
+// a nil variant is the Null value
+//@   ensures[C20] typeof(value) == tyVar() && value.(*Variant) == nil ==> c.typ == Null && c.value == nil
+//@   ensures[C20] typeof(value) == tyVar() && value.(*Variant) != nil ==> c.typ == old(value.(*Variant).typ) &&
 //@       (c.typ != Array ==> c.value == old(value.(*Variant).value))
-//@   ensures[C20] typeof(value) == tyVar() && old(value.(*Variant).typ) == Array ==>
+//@   ensures[C20] typeof(value) == tyVar() && value.(*Variant) != nil && old(value.(*Variant).typ) == Array ==>
 //@       len(arrOf(c)) == old(len(arrOf(value.(*Variant)))) && fresh(arrOf(c)) &&
 //@       (forall i int :: 0 <= i && i < len(arrOf(c)) ==> arrOf(c)[i] == old(arrOf(value.(*Variant))[i]))
 //@   assigns c.typ, c.value
 //@   nopanic
 //
 //@ func NewVariant
-//@   requires typeof(value) == tyVar() ==> vinv(value.(*Variant))
+//@   requires typeof(value) == tyVar() && value.(*Variant) != nil ==> vinv(value.(*Variant))
 //@   ensures[C20] fresh(result) && vinv(result)
 //@   ensures[C20] typeof(value) != tyVar() ==> result.typ == typeForHost(value)
 //@   ensures[C20] value != nil && typeof(value) != typeid("int32") && typeof(value) != typeid("uint32") && typeof(value) != typeid("uint") &&
 //@       typeof(value) != tyArr() && typeof(value) != tyVar() ==> result.value == value
-//@   ensures[C20] typeof(value) == tyVar() ==> result.typ == value.(*Variant).typ &&
+//@   ensures[C20] typeof(value) == tyVar() && value.(*Variant) == nil ==> result.typ == Null
+//@   ensures[C20] typeof(value) == tyVar() && value.(*Variant) != nil ==> result.typ == value.(*Variant).typ &&
 //@       (result.typ != Array ==> result.value == value.(*Variant).value)
-//@   ensures[C20] typeof(value) == tyVar() && value.(*Variant).typ == Array ==>
+//@   ensures[C20] typeof(value) == tyVar() && value.(*Variant) != nil && value.(*Variant).typ == Array ==>
 //@       len(arrOf(result)) == len(arrOf(value.(*Variant))) && fresh(arrOf(result)) &&
 //@       (forall i int :: 0 <= i && i < len(arrOf(result)) ==> arrOf(result)[i] == arrOf(value.(*Variant))[i])
 //@   assigns nothing
 //@   nopanic
 //@ func VariantFromObject
-//@   requires typeof(value) == tyVar() ==> vinv(value.(*Variant))
+//@   requires typeof(value) == tyVar() && value.(*Variant) != nil ==> vinv(value.(*Variant))
 //@   ensures[C20] fresh(result) && vinv(result)
 //@   ensures[C20] typeof(value) != tyVar() ==> result.typ == typeForHost(value)
 //@   assigns nothing
 //@   nopanic
 //
 // "a clone equals its original ... mutating a clone never changes the original": the clone is a fresh
-// object and, for arrays, owns a fresh backing array with the same elements
+// object and, for arrays, owns a fresh backing array whose elements are fresh copies of the original's elements
+// (supported values: scalars and flat arrays of scalars)
+//@ pred cloneInv(v *Variant) = vinv(v) && (v.typ == Array ==> allocated(arrOf(v)) &&
+//@     (forall i int :: 0 <= i && i < len(arrOf(v)) ==> arrOf(v)[i] == nil || (vinv(arrOf(v)[i]) && arrOf(v)[i].typ != Array)))
 //@ func (c *Variant) Clone
-//@   requires vinv(c)
+//@   requires cloneInv(c)
 //@   ensures[C20] fresh(result) && vinv(result) && result.typ == c.typ
 //@   ensures[C20] c.typ != Array ==> result.value == c.value
 //@   ensures[C20] c.typ == Array ==> len(arrOf(result)) == len(arrOf(c)) && fresh(arrOf(result)) &&
-//@       (forall i int :: 0 <= i && i < len(arrOf(c)) ==> arrOf(result)[i] == arrOf(c)[i])
+//@       (forall i int :: 0 <= i && i < len(arrOf(c)) ==> (arrOf(c)[i] == nil ==> arrOf(result)[i] == nil) &&
+//@           (arrOf(c)[i] != nil ==> fresh(arrOf(result)[i]) && arrOf(result)[i].typ == arrOf(c)[i].typ && arrOf(result)[i].value == arrOf(c)[i].value))
 //@   assigns nothing
 //@   nopanic
+//@   decreases c.typ == Array ? 1 : 0
+//@   loop 0
+//@     invariant -1 <= rangeindex && rangeindex < len(elements) && len(elements) == len(arrOf(c)) && fresh(elements) && elements == arrOf(result)
+//@     invariant fresh(result) && vinv(result) && result.typ == c.typ && c.typ == Array
+//@     invariant elems(arrOf(c)) == old(elems(arrOf(c))) && cloneInv(c) && arr(elements) != arr(arrOf(c))
+//@     invariant forall i int :: 0 <= i && i <= rangeindex ==> (arrOf(c)[i] == nil ==> elements[i] == nil) &&
+//@         (arrOf(c)[i] != nil ==> fresh(elements[i]) && elements[i].typ == arrOf(c)[i].typ && elements[i].value == arrOf(c)[i].value)
+//@     invariant forall i int :: rangeindex < i && i < len(elements) ==> elements[i] == arrOf(c)[i]
+//@     decreases len(elements) - rangeindex
 //
 // "indexed writes past the end grow the array with nulls"
 //@ func (c *Variant) SetByIndex
@@ -307,9 +323,14 @@ package variants
 //@   ensures[C20] result == (c.value == nil)
 //@   assigns nothing
 //@   nopanic
+// "set to a list of elements keeps its own copy of the list": also when the list comes with another variant
 //@ func (c *Variant) Assign
-//@   requires c != nil && (value != nil ==> vinv(value))
-//@   ensures[C20] vinv(c) && c.typ == (value == nil ? Null : old(value.typ)) && c.value == (value == nil ? nil : old(value.value))
+//@   requires c != nil && (value != nil ==> vinv(value) && value != c)
+//@   ensures[C20] vinv(c) && c.typ == (value == nil ? Null : old(value.typ))
+//@   ensures[C20] value == nil ==> c.value == nil
+//@   ensures[C20] value != nil && old(value.typ) != Array ==> c.value == old(value.value)
+//@   ensures[C20] value != nil && old(value.typ) == Array ==> len(arrOf(c)) == old(len(arrOf(value))) && fresh(arrOf(c)) &&
+//@       (forall i int :: 0 <= i && i < len(arrOf(c)) ==> arrOf(c)[i] == old(arrOf(value)[i]))
 //@   assigns c.typ, c.value
 //@   nopanic
 //@ func (c *Variant) Clear
@@ -320,14 +341,20 @@ package variants
 //
 // "equality is symmetric and never fails - arrays included, NaN (which equals nothing) excepted"
 //@ spec sameValue(a *Variant, b *Variant) bool = a.typ == b.typ && goeq(a.value, b.value)
-// supported values: scalars and flat arrays of scalars (an Object payload may be of an uncomparable type)
-//@ pred scalarInv(v *Variant) = vinv(v) && v.typ != Array && v.typ != Object
-//@ pred flatInv(v *Variant) = vinv(v) && v.typ != Object && (v.typ == Array ==>
+// == on two payloads; where Go cannot compare them (both hold the same uncomparable type) the deferred closure recovers and
+// the answer is reflect.DeepEqual's: never a panic. For the payloads of the host types it is ==.
+//@ func equalValues
+//@   ensures[C20] (isHostTid(typeof(value1)) && typeof(value1) != tyArr()) || value1 == nil ==> result == goeq(value1, value2)
+//@   assigns nothing
+//@   nopanic
+// values: scalars, objects of any Go type, and flat arrays of these
+//@ pred scalarInv(v *Variant) = vinv(v) && v.typ != Array
+//@ pred flatInv(v *Variant) = vinv(v) && (v.typ == Array ==>
 //@     (forall i int :: 0 <= i && i < len(arrOf(v)) ==> arrOf(v)[i] == nil || scalarInv(arrOf(v)[i])))
 //@ func (c *Variant) Equals
 //@   requires flatInv(c) && (obj != nil ==> flatInv(obj))
 //@   ensures[C20] obj == nil ==> !result
-//@   ensures[C20] obj != nil && !(c.typ == Array && obj.typ == Array) ==> result == sameValue(c, obj)
+//@   ensures[C20] obj != nil && !(c.typ == Array && obj.typ == Array) && c.typ != Object ==> result == sameValue(c, obj)
 //@   ensures[C20] obj != nil && c.typ == Array && obj.typ == Array && len(arrOf(c)) != len(arrOf(obj)) ==> !result
 //@   assigns nothing
 //@   nopanic
